@@ -211,12 +211,13 @@ ParseAtom(b, p) ==
 (* One DStep per iteration of `while let Some(op) = ops.pop()`; leaving the  *)
 (* loop (ops empty) is folded into the step that empties the stack.          *)
 
-DInit == [ops |-> << "S" >>, vals |-> << >>, pos |-> 0, st |-> "run", fe |-> FALSE]
+DInit == [ops |-> << "S" >>, vals |-> << >>, pos |-> 0, st |-> "run", fe |-> FALSE, n |-> 0]
 
 DFinish(d) == IF d.ops = << >> THEN [d EXCEPT !.st = "ok"] ELSE d
 
-DStep(b, d) ==
-  LET op == Last(d.ops)
+DStep(b, d0) ==
+  LET d == [d0 EXCEPT !.n = @ + 1]              \* n counts loop iterations (termination measure)
+      op == Last(d.ops)
       rest == Front(d.ops)
   IN  IF op = "C"
       THEN LET n == Len(d.vals)
@@ -235,8 +236,8 @@ RECURSIVE DRun(_, _)
 DRun(b, d) == IF d.st # "run" THEN d ELSE DRun(b, DStep(b, d))
 
 DResult(d) ==
-  IF d.st = "ok" THEN [ok |-> TRUE, node |-> d.vals[1], used |-> d.pos, fe |-> FALSE]
-  ELSE [ok |-> FALSE, node |-> NoNode, used |-> 0, fe |-> d.fe]
+  IF d.st = "ok" THEN [ok |-> TRUE, node |-> d.vals[1], used |-> d.pos, fe |-> FALSE, steps |-> d.n]
+  ELSE [ok |-> FALSE, node |-> NoNode, used |-> 0, fe |-> d.fe, steps |-> d.n]
 
 Decode(b) == DResult(DRun(b, DInit))
 
@@ -365,6 +366,7 @@ LenUntrustedOf(dec) == [ok |-> dec.ok, v |-> dec.used]
 TreeLawsOn(t, e) ==
   LET d == Decode(e)
   IN  /\ d.ok /\ d.used = Len(e) /\ NodeTree(d.node) = t          \* round trip
+      /\ d.steps <= 2 * Len(e) + 1
       /\ IsCanonical(e)
       /\ LenTrusted(e) = [ok |-> TRUE, v |-> Len(e)]
       /\ LenUntrustedOf(d) = [ok |-> TRUE, v |-> Len(e)]
@@ -379,7 +381,8 @@ CanonicalByDefinition(b, d) == d.ok /\ d.used = Len(b) /\ Encode(NodeTree(d.node
 \* C15 (converse) and C16 for a byte string; d = Decode(b), cn = IsCanonical(b), lt = LenTrusted(b)
 BytesLawsOn(b, d, cn, lt) ==
   LET r == ParseAt(b, 0)
-  IN  /\ d.ok = r.ok /\ (d.ok => d.node = r.node /\ d.used = r.node.e)      \* machine = recursive descent
+  IN  /\ d.steps <= 2 * Len(b) + 1                   \* terminates: a step consumes a byte or retires a cons
+      /\ d.ok = r.ok /\ (d.ok => d.node = r.node /\ d.used = r.node.e)      \* machine = recursive descent
       /\ d.ok => (cn <=> CanonicalByDefinition(b, d))
       /\ (d.ok /\ cn) => Encode(NodeTree(d.node)) = SubSeq(b, 1, d.used)
       /\ (~d.ok /\ cn) => d.fe                       \* only back-references make the two differ
